@@ -226,7 +226,7 @@ def main():
     th.start()
     import time
     t_wait = time.time()
-    while th.is_alive() and not exc and not started[0] and time.time() - t_wait < 20:
+    while th.is_alive() and not exc and not started[0] and time.time() - t_wait < 90:
         time.sleep(0.002)
     if not started[0]:
         sys.stdout.write("\n" + json.dumps({"log": log, "marks": [], "crashed": True, "exc": exc[:1] or ["startup hang"],
@@ -242,7 +242,7 @@ def main():
     def wait_idle():
         """until the robot thread has finished its pass and is entering NotifierDelay.wait() (or died)"""
         t_wait = time.time()
-        while time.time() - t_wait < 15:
+        while time.time() - t_wait < 60:
             if sem.acquire(timeout=0.02):
                 return True
             if exc or not th.is_alive():
